@@ -54,6 +54,7 @@ def run(ck):
     ck.run_rule(ak_array_keys, ctx)
     ck.run_rule(si_success_implies, ctx)
     ck.run_rule(p3_loops, ctx)
+    ck.run_rule(p5_text_counters, ctx)
 
 
 def setup(ck, ctx):
@@ -343,3 +344,52 @@ def p3_loops(ck, ctx):
 
 for _f in (setup, p1_inventory, inv_constructions, ak_array_keys, si_success_implies):
     _f.raw_bodies = True
+
+
+# ---------------------------------------------------------------------------------------------- P5
+
+
+def p5_text_counters(ck, ctx):
+    """Numbers the text layer accepts at full width travel on past the chess-logic boundary where P1 stops: the two FEN counters are parsed as
+    unbounded integers into `Clock` and every later `position ... moves` / search step computes with them.  Every arithmetic panic site (overflow,
+    division) anywhere in the workspace code reachable from the UCI loop - no boundary - whose operands read a field of `Clock` must be discharged:
+    a huge counter is legal text and must not take the process down in a build with overflow checks."""
+    prog = ck.prog
+    cg = CallGraph(prog)
+    adt = ck.adt("weechess_core::state::Clock", "P5")
+    fields = {f["name"] for f in adt["variants"][0]["fields"]}
+    ck.req(len(fields) >= 2, "P5.clock", "Clock", "", "the move-counter record has fields %s" % sorted(fields))
+    seen, _e, _i = cg.reachable([EXEC] + PARSER_ROOTS)
+    n_sites = 0
+    n_readers = 0
+    for n in sorted(seen):
+        b = prog.raw_body(n)
+        if b is None or b.crate not in ("weechess_core", "weechess_engine", "weechess"):
+            continue
+        tb = TermBuilder(prog, b)
+        reads = False
+        for bb, blk in enumerate(b.blocks):
+            if blk.get("cleanup"):
+                continue
+            t = blk["term"]
+            if t["k"] != "assert":
+                continue
+            msg = str(t.get("msg"))
+            if not any(k in msg for k in ("Overflow", "DivisionByZero", "RemainderByZero")):
+                continue
+            ops = [tb.operand(o) for o in t.get("msg_ops", [])]
+            if not any(x[0] == "field" and x[2] in fields for o in ops for x in walk(o)):
+                continue
+            reads = True
+            n_sites += 1
+            ck.fail("P5.counter_arithmetic", "%s:%s" % (n.split("::")[-1], msg.split("(")[0][:40]), b.where(t.get("line")),
+                    "checked arithmetic on a move counter read from text (%s): a FEN counter of 18446744073709551615 followed by a move panics here in "
+                    "builds with overflow checks and takes the UCI process down" % ", ".join(show(o)[:60] for o in ops))
+        # count functions that read the counters at all (evidence; the rule is not vacuous while > 0)
+        if reads or any(x[0] == "field" and x[2] in fields for blk in b.blocks for s in blk["stmts"] if s["k"] == "assign" for x in walk(tb.rvalue(s["rv"]))):
+            n_readers += 1
+    ck.floor("P5", n_readers, 2, "functions reachable from the UCI loop that read the move counters")
+    if n_sites == 0:
+        ck.ok("P5.counter_arithmetic", "all", "", "no overflow-checked arithmetic on Clock fields in %d reachable function(s) (%d read the counters)" % (len(seen), n_readers))
+    ck.extra["P5_functions_reachable"] = len(seen)
+    ck.extra["P5_counter_readers"] = n_readers
